@@ -299,6 +299,11 @@ func runStream(x *core.Ctx, r *core.Rng, n int) {
 	np := r.Range(1, 40)
 	recTime := r.Bool()
 	profile := profiles[r.Intn(len(profiles))]
+	if n%10 == 9 {
+		// a long recording: many times the reader's buffer, so that records straddle its refills
+		np, profile = r.Range(400, 2500), "base"
+		x.Count("long_stream_recordings", 1)
+	}
 	sub += " profile=" + profile
 	x.SetAdd("profiles", "stream:"+profile)
 	var pts []edge.PointMessage
